@@ -78,7 +78,10 @@ def _typed_job(job):
     if len(tables) != 1 or len(tables[0]) < 1:
         return {"exc": f"tables: {tables!r}"[:200]}
     data = tables[0][1] if len(tables[0]) > 1 else []
-    return {"row": [_typed_obs(c) for c in data], "raw": repr(data)[:200]}
+    from ..docmodel import TOKEN_RE
+    lines = [ln for ln in r.get_full_text().split("\n") if ln.strip()]
+    words = ["<token>" if TOKEN_RE.fullmatch(w) else w[:40] for w in (lines[-1].split() if len(lines) > 2 or (lines and not dup) else [])]
+    return {"row": [_typed_obs(c) for c in data], "raw": repr(data)[:200], "words": words, "nlines": len(lines)}
 
 
 def _typed_grid_job(kinds):
@@ -139,7 +142,9 @@ def typed_values(ctx):
             ctx.v.violation(what=f"{fmt}: typed row {kinds} could not be read back: {o['exc']}", case={"kinds": kinds, "fmt": fmt})
             continue
         traces.append({"id": f"typed{'-duphdr' if dup else ''}:{fmt}:{'/'.join(kinds)}", "hdr": {"fmt": "xls" if fmt == "xls1904" else fmt, "doc": {"units": [], "header": [], "footer": []}},
-                       "raw": o["raw"], "ev": [{"a": "Typed", "kinds": eff, "row": o["row"]}]})
+                       "raw": o["raw"] + " text " + " ".join(o["words"]),
+                       "ev": [{"a": "Typed", "kinds": eff, "row": o["row"]}]
+                             + ([{"a": "TypedText", "kinds": eff, "words": o["words"]}] if o["nlines"] >= 3 else [])})
     # header-less grids whose last column may hold only falsy values (ODS keeps every row as data)
     grids = gen_units(ctx, "typedgrid", 1)
     gjobs = [[[str(k) for k in row] for row in u[0]] for u in grids]
